@@ -1,13 +1,13 @@
 SPECIFICATION Spec
 CONSTANTS
-  Devs <- DevTwo
+  Devs <- DevBoth
   Ops <- AllOps
   ByteStrings <- BytesQuick
   NumSeqs <- NumsQuick
   NewObjs <- MCNewObjs
   MaxDepth = 2
   Starts <- StartsQuick
-  Allowed = {"content.sharedStream", "resources.nameCollision"}
+  Allowed = {}
   Emit = TRUE
   EmitMod = 400
   EmitModV = 40
